@@ -20,11 +20,21 @@ def main():
         sys.exit("patch does not apply: " + r.stderr)
     fired = {}
     try:
-        for p in ids:
-            r = subprocess.run([os.path.join(HERE, "check"), p, "--tier", "quick"], capture_output=True, text=True, cwd=HERE)
-            keys = [l.split("key    :")[1].strip() for l in r.stdout.splitlines() if l.strip().startswith("key    :")]
-            if r.returncode != 0 or keys:
-                fired[p] = keys or ["exit=%d" % r.returncode]
+        if "--no-restore" in sys.argv:
+            # sweep: one process for all properties (same rules, same facts; no evidence written)
+            r = subprocess.run([os.path.join(HERE, "check"), ",".join(ids), "--tier", "quick", "--no-evidence"], capture_output=True, text=True, cwd=HERE)
+            for l in r.stdout.splitlines():
+                if l.startswith("FIRED "):
+                    _, p, key = l.split(" ", 2)
+                    fired.setdefault(p, []).append(key)
+            if r.returncode not in (0, 1) or (r.returncode == 1 and not fired):
+                fired["ENGINE"] = ["sweep failed: " + (r.stdout + r.stderr)[-300:]]
+        else:
+            for p in ids:
+                r = subprocess.run([os.path.join(HERE, "check"), p, "--tier", "quick"], capture_output=True, text=True, cwd=HERE)
+                keys = [l.split("key    :")[1].strip() for l in r.stdout.splitlines() if l.strip().startswith("key    :")]
+                if r.returncode != 0 or keys:
+                    fired[p] = keys or ["exit=%d" % r.returncode]
     finally:
         subprocess.run(["git", "-C", "/repo", "checkout", "--", "."])
         subprocess.run(["git", "-C", "/repo", "clean", "-fdq", "-e", "target"])
